@@ -22,6 +22,8 @@ import (
 	"sort"
 	"strconv"
 	"strings"
+	"sync"
+	"sync/atomic"
 	"time"
 
 	"github.com/gopcua/opcua/id"
@@ -35,7 +37,11 @@ import (
 
 var out = json.NewEncoder(os.Stdout)
 
+var emitMu sync.Mutex
+
 func emit(v any) {
+	emitMu.Lock()
+	defer emitMu.Unlock()
 	if err := out.Encode(v); err != nil {
 		panic(err)
 	}
@@ -112,6 +118,7 @@ type BDesc struct {
 	RefType  NID    `json:"reftype"`
 	Subtypes bool   `json:"subtypes"`
 	Mask     uint32 `json:"mask"`
+	RMask    *uint32 `json:"rmask,omitempty"` // ResultMask; nil = all fields (63)
 }
 type RDesc struct {
 	Type    uint64  `json:"type"`
@@ -129,10 +136,15 @@ type RV struct {
 	Attr uint32 `json:"attr"`
 }
 type WV struct {
-	Node NID    `json:"node"`
-	Attr uint32 `json:"attr"`
-	Val  DVal   `json:"val"`
+	Node  NID    `json:"node"`
+	Attr  uint32 `json:"attr"`
+	Val   DVal   `json:"val"`
+	SrcTS bool   `json:"src_ts,omitempty"` // the DataValue also carries a source timestamp
+	Pico  bool   `json:"pico,omitempty"`   // ... and source picoseconds
 }
+
+// slowArmed makes the value callback of "slow" nodes take its time (only while an appnotify op is under way)
+var slowArmed int32
 
 // Op is one request of a history. Tok selects the authentication token: "null", "bogus", "s<k>" (token of the
 // k-th session created in this history), "raw:<n>" (numeric id n).
@@ -152,6 +164,7 @@ type Op struct {
 	MapNS    bool     `json:"mapns,omitempty"` // a request on the map namespace: not part of the model history (Browse is compared with Model map_browse)
 	Ident    string   `json:"ident,omitempty"` // activate: user identity token kind: "" / anonymous, username, issued, x509, garbage, none
 	Wait     bool     `json:"wait,omitempty"`  // publish: wait for the notification the subscription worker sends
+	Chain    bool     `json:"chain,omitempty"` // send the next op of the history right after this one is answered, before any table is read
 }
 
 type Outcome struct {
@@ -515,6 +528,8 @@ type runner struct {
 	subs     []uint32
 	items    []uint32
 	handle   uint32 // client handles are unique per history (the publish queue of a subscription is keyed by them)
+	pendEv   map[string]any // result of an op that was executed early (Chain)
+	pendOut  *Outcome
 }
 
 func (r *runner) client(ch int) *rawClient {
@@ -617,6 +632,13 @@ var svcReqs = map[string]func() ua.Request{
 	"closesecurechannel_as_msg": func() ua.Request { return &ua.CloseSecureChannelRequest{} }, // no handler registered
 }
 
+func resultMask(b BDesc) uint32 {
+	if b.RMask != nil {
+		return *b.RMask
+	}
+	return uint32(ua.BrowseResultMaskAll)
+}
+
 func stOf(err error) (uint32, bool) {
 	if sc, ok := err.(ua.StatusCode); ok {
 		return uint32(sc), true
@@ -661,7 +683,16 @@ func (r *runner) exec(op Op) (map[string]any, Outcome) {
 	case "write":
 		req := &ua.WriteRequest{}
 		for _, wv := range op.Writes {
-			req.NodesToWrite = append(req.NodesToWrite, &ua.WriteValue{NodeID: parseNID(wv.Node), AttributeID: ua.AttributeID(wv.Attr), Value: mkDV(wv.Val)})
+			dv := mkDV(wv.Val)
+			if wv.SrcTS {
+				dv.EncodingMask |= ua.DataValueSourceTimestamp
+				dv.SourceTimestamp = time.Now()
+			}
+			if wv.Pico {
+				dv.EncodingMask |= ua.DataValueSourcePicoseconds
+				dv.SourcePicoseconds = 7
+			}
+			req.NodesToWrite = append(req.NodesToWrite, &ua.WriteValue{NodeID: parseNID(wv.Node), AttributeID: ua.AttributeID(wv.Attr), Value: dv})
 		}
 		ev["writes"] = op.Writes
 		if op.MapNS {
@@ -681,7 +712,7 @@ func (r *runner) exec(op Op) (map[string]any, Outcome) {
 		for _, b := range op.Browses {
 			req.NodesToBrowse = append(req.NodesToBrowse, &ua.BrowseDescription{
 				NodeID: parseNID(b.Node), BrowseDirection: ua.BrowseDirection(b.Dir), ReferenceTypeID: parseNID(b.RefType),
-				IncludeSubtypes: b.Subtypes, NodeClassMask: b.Mask, ResultMask: uint32(ua.BrowseResultMaskAll)})
+				IncludeSubtypes: b.Subtypes, NodeClassMask: b.Mask, ResultMask: resultMask(b)})
 		}
 		ev["browses"] = op.Browses
 		if op.MapNS {
@@ -700,7 +731,13 @@ func (r *runner) exec(op Op) (map[string]any, Outcome) {
 		for _, br := range resp.(*ua.BrowseResponse).Results {
 			x := BrowseR{St: uint32(br.StatusCode), Refs: []RDesc{}}
 			for _, rd := range br.References {
-				d := RDesc{Type: keys.of(rd.ReferenceTypeID.String()), Fwd: rd.IsForward, Target: keys.of(rd.NodeID.NodeID.String()), Class: uint32(rd.NodeClass)}
+				d := RDesc{Fwd: rd.IsForward, Class: uint32(rd.NodeClass)}
+				if rd.ReferenceTypeID != nil {
+					d.Type = keys.of(rd.ReferenceTypeID.String())
+				}
+				if rd.NodeID != nil && rd.NodeID.NodeID != nil {
+					d.Target = keys.of(rd.NodeID.NodeID.String())
+				}
 				if rd.TypeDefinition != nil && rd.TypeDefinition.NodeID != nil {
 					k := keys.of(rd.TypeDefinition.NodeID.String())
 					d.TypeDef = &k
@@ -748,6 +785,17 @@ func (r *runner) exec(op Op) (map[string]any, Outcome) {
 			return ev, fail(err)
 		}
 		return ev, Outcome{K: "activate"}
+	case "appnotify":
+		// the application reports a change of a node whose value callback is slow: the monitored item tables stay locked meanwhile
+		ev["nomodel"] = true
+		n := parseNID(op.Reads[0].Node)
+		atomic.StoreInt32(&slowArmed, 1)
+		go func() {
+			r.s.srv.ChangeNotification(n)
+			atomic.StoreInt32(&slowArmed, 0)
+		}()
+		time.Sleep(40 * time.Millisecond)
+		return ev, Outcome{K: "other"}
 	case "closesession":
 		_, err := c.call(&ua.CloseSessionRequest{DeleteSubscriptions: true}, tok, to)
 		if err != nil {
@@ -940,6 +988,14 @@ func buildNode(ns uint16, nj NodeJ) *server.Node {
 	case "dv":
 		dv := mkDV(*nj.ValDV)
 		vf = func() *ua.DataValue { return dv }
+	case "slow":
+		dv := mkDV(*nj.ValDV)
+		vf = func() *ua.DataValue {
+			if atomic.LoadInt32(&slowArmed) != 0 {
+				time.Sleep(500 * time.Millisecond)
+			}
+			return dv
+		}
 	}
 	n := server.NewNode(parseNID(nj.ID), attrs, refs, vf)
 	// NewNode adds BrowseName / DisplayName / Description; they are dumped with the node
@@ -996,8 +1052,20 @@ func (s *sut) runHistory(h History, dumpAll bool) (dead bool) {
 	}()
 	for i, op := range h.Ops {
 		emit(map[string]any{"t": "pre", "hist": h.ID, "i": i, "op": op})
-		before := s.tables()
-		ev, o := r.exec(op)
+		var before tablesJ
+		var ev map[string]any
+		var o Outcome
+		if r.pendOut != nil {
+			ev, o = r.pendEv, *r.pendOut
+			r.pendEv, r.pendOut = nil, nil
+		} else {
+			before = s.tables()
+			ev, o = r.exec(op)
+			if op.Chain && i+1 < len(h.Ops) {
+				ev2, o2 := r.exec(h.Ops[i+1])
+				r.pendEv, r.pendOut = ev2, &o2
+			}
+		}
 		if o.K == "timeout" {
 			// the server stopped answering: its tables may be locked for good (a handler blocked while holding a
 			// mutex), so they are not read again
